@@ -290,9 +290,21 @@ static void *enq_main(void *arg)
  * the enqueue the callback lands on a stopped, freed helper (lost callback / use after free). */
 static uint64_t pre_enqueue_stalls, pre_enqueue_stalls_spanning_teardown;
 static uint64_t percpu_cycles;
+static int ho_mode, ho_def_asleep_at_handover;
+static int default_helper_state(int32_t *futex, unsigned long *qlen);
 static void crcu_user_hook(int point, const void *ctx)
 {
 	(void) ctx;
+	if (ho_mode) {
+		if (point == URCU_VP_CRCU_FREE_STOPPED) {
+			/* the dying helper has stopped; its leftovers are about to be handed over */
+			int32_t fx = 0;
+			unsigned long ql = 1;
+			int ok = default_helper_state(&fx, &ql);
+			VP_STORE(ho_def_asleep_at_handover, ok && fx == -1 && ql == 0);
+		}
+		return;
+	}
 	if (point != URCU_VP_CRCU_PRE_ENQUEUE || layout < 2 || !churn_helpers)
 		return;
 	struct vp_thr *t = vp_self();
@@ -584,10 +596,145 @@ static void check_barriers(uint64_t *ev, uint64_t *nontriv)
 	free(pmax);
 }
 
+/* ------------------------------------------------------------------ mode=handover
+ * Quiet hand-over: nobody but the actors below touches call_rcu.  A per-thread helper H is busy with a slow
+ * callback; rcu_barrier() starts (its marker for H waits in H's queue behind the running batch; the default
+ * helper runs its own marker and goes back to sleep); then H is destroyed.  H leaves the marker queued, it is
+ * handed over to the sleeping default helper, which must be woken for it - there is no other traffic that
+ * would wake it by accident.  The barrier must return, and only after the slow callback has finished. */
+struct ho_cb { struct rcu_head head; int started, done; uint32_t ms; };
+static void ho_slow_cb(struct rcu_head *h)
+{
+	struct ho_cb *c = caa_container_of(h, struct ho_cb, head);
+	VP_STORE(c->started, 1);
+	usleep(c->ms * 1000);
+	VP_STORE(c->done, 1);
+}
+static int ho_bar_done;
+static struct ho_cb *ho_cur;
+static void *ho_barrier_main(void *arg)
+{
+	(void) arg;
+	vp_pin(2);
+	/* not a registered reader: rcu_barrier() must not be called from a read-side section (qsbr: online) */
+	rcu_barrier();
+	if (!VP_LOAD(ho_cur->done))
+		vp_violation("barrier-returned-before-callback-finished",
+			     "cfg=%s handover mode: rcu_barrier() returned while the callback queued before it on the helper being destroyed was still running", cfgname);
+	VP_STORE(ho_bar_done, 1);
+	return NULL;
+}
+static int default_helper_state(int32_t *futex, unsigned long *qlen)
+{
+	struct vp_crdp_info info[64];
+	int n = VP_PEEK(crdp_snapshot)(info, 64);
+	for (int i = 0; i < n && i < 64; i++)
+		if (info[i].is_default) {
+			*futex = info[i].futex;
+			*qlen = info[i].qlen;
+			return 1;
+		}
+	return 0;
+}
+static int run_handover(long rounds)
+{
+	struct vp_rng r;
+	uint64_t ev = 0, nontriv = 0, asleep_at_free = 0;
+	vp_rng_init(&r, vp_opt.seed, 0x4a9d, 0);
+	vp_pin(0);
+	vp_lib_thread_slot_base(1);
+	ho_mode = 1;
+	vp_user_hook = crcu_user_hook;
+	rcu_register_thread();
+	vp_rcu_offline();
+	(void) get_default_call_rcu_data();	/* the default helper exists (and goes to sleep) from the start */
+	rcu_barrier();
+	vp_rcu_online();
+	for (long i = 0; i < rounds && !vp_nviolations(); i++) {
+		struct ho_cb *c = calloc(1, sizeof(*c));
+		c->ms = 80 + vp_rand_n(&r, 60);
+		ho_cur = c;
+		VP_STORE(ho_bar_done, 0);
+		struct call_rcu_data *H = create_call_rcu_data(vp_rand_n(&r, 2) ? URCU_CALL_RCU_RT : 0, -1);
+		set_thread_call_rcu_data(H);
+		call_rcu(&c->head, ho_slow_cb);
+		vp_rcu_offline();
+		for (int k = 0; k < 4000 && !VP_LOAD(c->started); k++)
+			usleep(100);
+		/* wait until the default helper sleeps with an empty queue */
+		int32_t fx = 0; unsigned long ql = 1;
+		for (int k = 0; k < 3000; k++) {
+			if (default_helper_state(&fx, &ql) && fx == -1 && ql == 0)
+				break;
+			usleep(200);
+		}
+		pthread_t bt;
+		pthread_create(&bt, NULL, ho_barrier_main, NULL);
+		/* long enough for the default helper to run its own marker and go back to sleep */
+		usleep(25000 + vp_rand_n(&r, 20000));
+		VP_STORE(ho_def_asleep_at_handover, 0);
+		vp_rcu_online();
+		set_thread_call_rcu_data(NULL);
+		vp_rcu_offline();
+		synchronize_rcu();
+		call_rcu_data_free(H);
+		/* nothing else happens from here on */
+		uint64_t t0 = vp_now_ns();
+		int stuck = 0;
+		while (!VP_LOAD(ho_bar_done)) {
+			usleep(2000);
+			uint64_t el = vp_now_ns() - t0;
+			if (el > 3000000000ULL && ((el / 1000000) % 1000) < 3) {
+				/* confirm the stuck state: marker(s) queued on a sleeping default helper */
+				if (default_helper_state(&fx, &ql) && fx == -1 && ql > 0 && el > 6000000000ULL) {
+					stuck = 1;
+					break;
+				}
+			}
+			if (el > 120000000000ULL)
+				break;
+		}
+		if (stuck) {
+			vp_violation("hang:rcu_barrier:handed-over-callbacks-on-sleeping-default-helper",
+				     "cfg=%s handover round %ld: rcu_barrier() has not returned %llu ms after call_rcu_data_free() of a helper that still held the barrier's marker; default helper futex=-1 (asleep) with qlen=%lu and no other call_rcu traffic",
+				     cfgname, i, (unsigned long long) ((vp_now_ns() - t0) / 1000000), ql);
+			/* unblock so that the process can finish */
+			struct ho_cb *kick = calloc(1, sizeof(*kick));
+			kick->ms = 0;
+			vp_rcu_online();
+			call_rcu(&kick->head, ho_slow_cb);
+			vp_rcu_offline();
+		} else if (!VP_LOAD(ho_bar_done))
+			vp_inconclusive("handover: rcu_barrier() did not return within 120 s but the stuck state was not confirmed");
+		pthread_join(bt, NULL);
+		vp_rcu_online();
+		int def_asleep = VP_LOAD(ho_def_asleep_at_handover);
+		ev++;
+		nontriv += (uint64_t) def_asleep;
+		asleep_at_free += (uint64_t) def_asleep;
+		vp_sig_add("%s:handover:default-helper-%s-at-free:slow-cb-%s", cfgname, def_asleep ? "asleep" : "awake",
+			   c->ms > 70 ? "long" : "short");
+		if (i < 2)
+			vp_sample_add("cfg=%s handover round %ld: helper busy with a %u ms callback, rcu_barrier() started, helper destroyed 25-45 ms later (default helper %s when the leftovers were handed over), barrier returned %llu ms after the free and after the callback finished",
+				      cfgname, i, c->ms, def_asleep ? "asleep" : "awake", (unsigned long long) ((vp_now_ns() - t0) / 1000000));
+		__atomic_store_n(&vp_self()->progress, vp_self()->progress + 1, __ATOMIC_RELAXED);
+	}
+	vp_rcu_offline();
+	rcu_barrier();
+	vp_rcu_online();
+	rcu_unregister_thread();
+	vp_counter_add("evaluations", ev);
+	vp_counter_add("nontrivial", nontriv);
+	vp_counter_add("handover_rounds_default_helper_asleep_at_free", asleep_at_free);
+	return vp_finish();
+}
+
 int main(int argc, char **argv)
 {
 	vp_init(argc, argv, "crcu_" VP_FLAVOR_NAME);
 	cfgname = vp_arg("cfg", VP_FLAVOR_NAME);
+	if (!strcmp(vp_arg("mode", "mixed"), "handover"))
+		return run_handover(vp_arg_long("rounds", 30));
 	focus = vp_arg("focus", "c03");
 	n_enq = (int) vp_arg_long("enqueuers", 4);
 	n_readers = (int) vp_arg_long("readers", 2);
